@@ -314,6 +314,34 @@ RTOL_DEC = 1e-9
 # the balanced kernel: weights must be multiples of some h with 2*tol < h (E20 theorems; below that the kernel's absolute
 # tolerance ignores improvements of a path).  The base weights are multiples of 0.5, so a scale s needs 0.5*s > 2*tol.
 SC_BAL = tuple(sc for sc in (2.0**-44, 2.0**-43, 2.0**-30) + SC_EXACT if 0.5 * sc > 2 * TOL)
+# ... and below that: the weight grid h = gcd of the weights is then usually <= 2^-46, where the balanced variant is the
+# known finding `balanced-bf-absolute-tolerance`; when the drawn weights happen to lie on a grid h >= 2^-45 the theorems apply
+SC_BAL_TINY = (2.0**-45, 2.0**-50, _trunc20(1e-15), 2.0**-60, 2.0**-200, _trunc20(1e-18), 2.0**-47)
+FKEY_BAL = 'balanced-bf-absolute-tolerance'
+
+
+def _grid(data):
+    """the largest h such that every positive weight is an integer multiple of h (exact; None without positive weights)"""
+    import math
+    from fractions import Fraction
+    fs = [frac(v) for v in np.asarray(data).ravel() if v > 0]
+    if not fs:
+        return None
+    den = 1
+    for f in fs:
+        den = den * f.denominator // math.gcd(den, f.denominator)
+    g = 0
+    for f in fs:
+        g = math.gcd(g, f.numerator * (den // f.denominator))
+    return Fraction(g, den)
+
+
+def _bal_fkey(balanced, data):
+    """key of the known finding iff the input is the listed one: BALANCED variant and weight grid h <= 2^-46 (decided from
+    the input alone); the standard variant at any scale and the balanced one on a grid h >= 2^-45 stay unlisted"""
+    from fractions import Fraction
+    h = _grid(data)
+    return FKEY_BAL if balanced and h is not None and h <= Fraction(1, 2**46) else None
 
 
 # ---------------------------------------------------------------- graph streams
@@ -583,8 +611,8 @@ def part_b(ctx, graphs):
         if M.diagonal().any():
             ctx.feat('api_graph:self loops')
 
-        def viol(what, extra=None):
-            ctx.violation(what + f' [input format {fmt}]', {**case0, **(extra or {})})
+        def viol(what, extra=None, fkey=None):
+            ctx.violation(what + f' [input format {fmt}]', {**case0, **(extra or {})}, fkey=fkey)
 
         def reg(name, **kw):
             ctx.case(key=_key(name, M.tobytes(), fmt, sorted(kw.items())), nontrivial=has_edge,
@@ -675,11 +703,13 @@ def part_b(ctx, graphs):
         #     tolerance), binary32 weights; the balanced method only on scalings its absolute tolerance admits (SC_BAL)
         if kind == 'replay':
             plan = ([('standard', sc, 'exact', np.float64) for sc in SC_EXACT] + [('standard', sc, 'dec', np.float64) for sc in SC_DEC]
-                    + [('standard', sc, 'exact', np.float32) for sc in SC_EXACT32] + [('balanced', sc, 'exact', np.float64) for sc in SC_BAL])
+                    + [('standard', sc, 'exact', np.float32) for sc in SC_EXACT32] + [('balanced', sc, 'exact', np.float64) for sc in SC_BAL + SC_BAL_TINY])
         else:
             plan = [('standard', SC_EXACT[t % len(SC_EXACT)], 'exact', np.float64),
                     ('standard', SC_DEC[t % len(SC_DEC)], 'dec', np.float64),
                     ('balanced', SC_BAL[t % len(SC_BAL)], 'exact', np.float64)]
+            if t % 2 == 0:
+                plan.append(('balanced', SC_BAL_TINY[(t // 2) % len(SC_BAL_TINY)], 'exact', np.float64))
             if t % 3 == 0:
                 plan.append(('standard', SC_EXACT32[(t // 3) % len(SC_EXACT32)], 'exact', np.float32))
         scaled = {}
@@ -708,8 +738,9 @@ def part_b(ctx, graphs):
                 d, m, p = PG.bellman_ford(Gsf, carg, **kw)
             e = check_bf(Gsc, centers, d, m, p, rtol=rt) if len(d) == len(m) == len(p) == n else 'results of wrong length'
             if e:
-                viol(f'bellman_ford(centers={centers.tolist()}, {kw}) with {dt.__name__} weights that are multiples of '
-                     f'{0.5 * sc!r}: {e}', extra)
+                h = float(_grid(Gsc.data) or 0)
+                viol(f'bellman_ford(centers={centers.tolist()}, {kw}) with {dt.__name__} weights on the grid h = {h!r}'
+                     f'{f" (2^{float(np.log2(h)):.4g})" if h else ""}: {e}', extra, fkey=_bal_fkey(method == 'balanced', Gsc.data))
         # --- Lloyd clustering: the cluster ids are nearest-centre labels for the centres the last sweep started from,
         #     i.e. the centres returned with one sweep less; the returned centre of a cluster lies in that cluster and is a
         #     most interior node of it; on the weights as drawn and (4th run; all scalings on replay) on scaled weights
@@ -872,7 +903,9 @@ def part_c_bal(ctx, graphs):
         wkind = 'zero' if t % 6 == 5 else 'pos'
         vals = [0.5, 1.0, 1.0, 2.0, 1.5] if wkind == 'pos' else [0.0, 0.0, 1.0, 0.5]
         # every other graph in another unit of length: multiples of h = 0.5*scale with 2*tol < h (SC_BAL), float sums exact
-        bsc = SC_BAL[(t // 2) % len(SC_BAL)] if t % 2 else 1.0
+        #     and every fourth graph below that (correspondence with the model still exact; the property is the known finding
+        #     `balanced-bf-absolute-tolerance` when the drawn grid is <= 2^-46)
+        bsc = 1.0 if t % 2 == 0 else SC_BAL_TINY[(t // 4) % len(SC_BAL_TINY)] if t % 4 == 3 else SC_BAL[(t // 4) % len(SC_BAL)]
         vals = [v * bsc for v in vals]
         ctx.feat(f'bal_scale:{bsc:.3g}')
         if sym:
@@ -951,16 +984,19 @@ def part_c_bal(ctx, graphs):
             d, m, p = st[0], st[1], st[2]
             Gk = G
             again.append((c, tuple(a.copy() for a in st)))
+        fk = _bal_fkey(True, G.data)
         if o != out:
             ctx.corr('kernel ' + what, {'line': c['line']}, o, out)
-            if c['wkind'] == 'pos' and len(set(int(v) % n for v in centers)) == len(centers):
-                # the property itself on the real output (check_bf does not look at the predecessor of a centre)
-                e = check_bf(Gk, np.array([int(v) % n for v in centers]), d, m, p)
-                if e:
-                    ctx.violation(f'bellman_ford_balanced ({c["init"]} initialisation, tiebreaking={tb}, centers={centers.tolist()}): {e}',
-                                  {'routine': 'bf_balanced', 'init': c['init'], 'tb': tb, 'n': n, 'indptr': G.indptr.tolist(),
-                                   'indices': G.indices.tolist(), 'data': G.data.tolist(), 'centers': centers.tolist(),
-                                   'M': (Gk.toarray() != 0).astype(int).tolist()})
+        if (o != out or fk) and c['wkind'] == 'pos' and len(set(int(v) % n for v in centers)) == len(centers):
+            # the property itself on the real output (check_bf does not look at the predecessor of a centre); below the
+            # grid the theorems need (fk: known finding) it is judged on every run, not only when the model is missed
+            e = check_bf(Gk, np.array([int(v) % n for v in centers]), d, m, p)
+            if e:
+                ctx.violation(f'bellman_ford_balanced ({c["init"]} initialisation, tiebreaking={tb}, centers={centers.tolist()}, '
+                              f'weight grid h = {float(_grid(G.data) or 0)!r}): {e}',
+                              {'routine': 'bf_balanced', 'init': c['init'] if c['init'] != 'public' else 'wrapper', 'tb': tb, 'n': n,
+                               'indptr': Gk.indptr.tolist(), 'indices': Gk.indices.tolist(), 'data': Gk.data.tolist(),
+                               'centers': [int(v) % n for v in centers], 'M': (Gk.toarray() != 0).astype(int).tolist()}, fkey=fk)
     # call history: the kernel called again on its own final state (as the Lloyd loop does)
     lines = [_bal_line(c['G'], c['tb'], st) for c, st in again]
     outs = ctx.lean(lines)
